@@ -52,13 +52,16 @@ struct HCfg {
         IfCfg i;
         i.mtu = mtu; i.mac = ownmac(); i.wifi = wifi; i.ssid = ssid; i.ssid_untrunc = untrunc; i.fail = fail & 0xFFFF;
         i.flags = 0x2000; i.ipv4 = 0x0A0B0C0D; for (int k = 0; k < 16; k++) i.ipv6[k] = (uint8_t)(0xF0 + k);
+        // attribute values derived from the own address so that histories see a spread of them, including 0 and all-ones
+        static const uint32_t types[6] = {6, 71, 0, 0xFFFFFFFFu, 1, 6}, speeds[4] = {1000000, 0, 0xFFFFFFFFu, 540000};
+        i.iftype = types[(own >> 4) % 6]; i.speed = speeds[(own >> 8) % 4]; i.wifi_mode = (uint8_t)((own >> 12) % 3 == 0 ? 0xFF : (own >> 12) & 3); i.rssi = (int8_t)(own >> 16);
         return i;
     }
     void apply_global(World &w) const {
         w.set_hostname(hostname, untrunc);
         if (icon_state) { if (icon.empty()) w.set_icon_present_empty(); else w.set_icon(icon); }
         w.set_friendly(friendly);
-        w.set_hwid(hwid);
+        w.set_hwid(hwid, untrunc);
         vp_global()->fail = fail & 0xFFFF0000u;
     }
 };
@@ -203,6 +206,7 @@ inline rc::Gen<int64_t> tos_gen(bool odd) {
     return rc::gen::weightedOneOf<int64_t>({{8, pick({0, 0, 0, 1})}, {1, pick({2, 3, 0x7F, 0xFF})}, {1, range<int64_t>(0, 255)}});
 }
 inline rc::Gen<int64_t> seq_gen() { return bnd({1, 2, 0x00FF, 0xFF00, 0xFFFF}, 1, 0xFFFF, 1, 1); }
+inline rc::Gen<int64_t> seq0_gen() { return bnd({0, 1, 2, 0x00FF, 0x0100, 0x8000, 0xFF00, 0xFFFF}, 0, 0xFFFF, 1, 1); }   // requests that are answered whatever their sequence number
 inline rc::Gen<int64_t> gen_gen() { return bnd({0, 1, 0x00FF, 0xFF00, 0xFFFF, 0x1234, 0x3412}, 0, 0xFFFF, 2, 1); }
 inline rc::Gen<Bytes> emit_descs(int maxn) {
     return rc::gen::mapcat(range<int>(1, maxn), [](int n) {
@@ -246,13 +250,13 @@ inline rc::Gen<Op> op_gen(const HistWeights &w) {
     if (w.reset) alts.push_back({(size_t)w.reset, rc::gen::exec([=] {
         Op o; o.kind = K_RESET; o.a = {*st(), *tos_gen(w.odd_tos), *pick({0, 1})}; return o; })});
     if (w.emit) alts.push_back({(size_t)w.emit, rc::gen::exec([=] {
-        Op o; o.kind = K_EMIT; o.a = {*cmd_st(), *seq_gen(), -1}; o.blob = *emit_descs(w.max_emit); return o; })});
+        Op o; o.kind = K_EMIT; o.a = {*cmd_st(), *seq0_gen(), -1}; o.blob = *emit_descs(w.max_emit); return o; })});
     if (w.probe) alts.push_back({(size_t)w.probe, rc::gen::exec([=] {
         Op o; o.kind = K_PROBE;
         o.a = {*range<int64_t>(0, w.probe_ids - 1), *range<int64_t>(0, 2), *pick({0, 1}), *pick({0, 0, 0, 0, 1, 2, 3})};
         return o; })});
     if (w.query) alts.push_back({(size_t)w.query, rc::gen::exec([=] {
-        Op o; o.kind = K_QUERY; o.a = {*cmd_st(), *seq_gen()}; return o; })});
+        Op o; o.kind = K_QUERY; o.a = {*cmd_st(), *seq0_gen()}; return o; })});
     if (w.qlt) alts.push_back({(size_t)w.qlt, rc::gen::exec([=] {
         Op o; o.kind = K_QLT;
         o.a = {*cmd_st(), *bnd({0, 1, 0xFFFF}, 0, 0xFFFF, 1, 2), *pick({0x0E, 0x0E, 0x11, 0x13, 0x12, 0x00, 0xFF}),
@@ -294,7 +298,7 @@ inline rc::Gen<HCfg> cfg_gen() {
         h.ssid = *bytes(0, 40);
         h.icon = *bytes(0, 1400);
         h.friendly = *bytes(0, 80);
-        Bytes hw = *bytes(0, 32);     // UCS-2LE units without NUL unit
+        Bytes hw = *bytes(0, *gx::pick({32, 32, 32, 36, 40}));     // UCS-2LE units without NUL unit; platforms may hold more than the 32 units the core asks for (a 36-character UUID)
         h.hwid.clear();
         for (auto b : hw) {   // never U+0000; includes units whose low byte is zero (U+0100 ...) next to ASCII units
             if (b % 4 == 2) { h.hwid.push_back(0x00); h.hwid.push_back((uint8_t)(1 + b % 0x4E)); }
